@@ -9,7 +9,8 @@
 (*    {"op":"final","finished":B}                   every goroutine of the history returned     *)
 (*                                                  within the watchdog's bound (B = false: hang)*)
 (* The linearization points are not in the log: TLC searches for a placement,                *)
-(*    TNext == (consume the next line) \/ (\E t : Lin(t))                                    *)
+(*    TNext == (consume the next line: inv, or ret matching the result of Lin) \/ (\E t : Lin(t)) *)
+(* with at most one pending call per thread.                                                 *)
 (* A history is accepted iff some behaviour consumes all of its lines; the whole file is      *)
 (* accepted iff l reaches Len(Trace) + 1 (TLC is then stopped).  If no behaviour gets there   *)
 (* the search space is exhausted and the high-water mark HW = the largest line index reached  *)
@@ -18,11 +19,11 @@
 (* Search reductions (each sound and complete for "some placement exists"):                  *)
 (*  R1 look-ahead: the result a call will return is in the log (its ret line), so a Lin step  *)
 (*     whose result differs from it is never taken (want[t], found when the inv is consumed). *)
-(*  R2 read-only calls (Get, Has, Iterate, IterateKeys, Flush; the Flush step of flushkv)      *)
-(*     change nothing, so any instant                                                         *)
-(*     between inv and ret at which the map yields the logged result is as good as any other:  *)
-(*     their Lin step is taken at the FIRST such instant, deterministically, before anything   *)
-(*     else happens (no branching on reads; a read whose result never shows up blocks its ret).*)
+(*  R2 read-only steps (Get, Has, Iterate, IterateKeys, Flush; the Flush step of flushkv)      *)
+(*     change nothing, so any instant between inv and ret at which the map yields the logged   *)
+(*     result is as good as any other: their Lin step is taken at the FIRST such instant,      *)
+(*     deterministically, before anything else happens (no branching on reads; a read whose    *)
+(*     result never shows up blocks its ret line).                                            *)
 (*  R3 the other (mutating) Lin steps are moved as far to the right as their order and "before *)
 (*     the thread's own ret line" allow (a Lin step commutes with inv lines and with ret lines *)
 (*     of other threads to its right; the reads between them move along, seeing the same map). *)
